@@ -159,6 +159,31 @@ def gmd(U: np.ndarray,
     return Q, R, P
 
 
+def _orthonormalize_columns(V: np.ndarray) -> np.ndarray:
+    """
+    Orthonormalize the columns of `V` (eigenvectors of a symmetric matrix).
+
+    The eigenvectors returned by `np.linalg.eig` for a repeated eigenvalue
+    span the correct subspace, but they are not orthogonal to each
+    other. Eigenvectors that are already orthonormal are not changed.
+
+    Parameters
+    ----------
+    V : np.ndarray
+        The matrix with the eigenvectors as columns.
+
+    Returns
+    -------
+    np.ndarray
+        A matrix with orthonormal columns spanning the same subspace.
+    """
+    Q, R = np.linalg.qr(V)
+    d = np.diag(R).copy()
+    d[d == 0] = 1.0
+    # Keep the phase of each original eigenvector
+    return Q * (d / np.abs(d))
+
+
 def peig(A: np.ndarray, n: int) -> Tuple[np.ndarray, np.ndarray]:
     """
     Returns a matrix whose columns are the `n` dominant eigenvectors of
@@ -203,6 +228,8 @@ def peig(A: np.ndarray, n: int) -> Tuple[np.ndarray, np.ndarray]:
     indexes = np.argsort(D.real)
     indexes = indexes[::-1]
     V = V[:, indexes[0:n]]
+    if n > 1 and np.allclose(A, A.T.conj()):
+        V = _orthonormalize_columns(V)
     D = D[indexes[0:n]]
     return V, D
 
@@ -251,6 +278,8 @@ def leig(A: np.ndarray, n: int) -> Tuple[np.ndarray, np.ndarray]:
     [D, V] = np.linalg.eig(A)
     indexes = np.argsort(D.real)
     V = V[:, indexes[0:n]]
+    if n > 1 and np.allclose(A, A.T.conj()):
+        V = _orthonormalize_columns(V)
     D = D[indexes[0:n]]
     return V, D
 
